@@ -583,6 +583,9 @@ class ApplicationJobs:
                 #       in the on_event method below
                 self.current_jobs.remove(command)
                 # generate a process event for this process to inform all Supvisors instances
+                # the command will not be in current_jobs anymore when the forced event comes back
+                # so trigger the configured actions here (BEFORE the forced event that may complete the job)
+                self.process_failure(command.process)
                 reason = f'process {getProcessStateDescription(expected_state)} event not received in time'
                 self.fail_command(command.process, command.identifier, event_time, reason)
             if result == ProcessRequestResult.SUCCESS:
